@@ -31,7 +31,7 @@ META = dict(
          "- Future, Task, object with __await__, generator-based coroutine - that completes later) with a fault history (raise / BaseException / timeout label with instant or slow cancellation clean-up / no-result / malformed / unknown / "
          "failing backend / raising pre- or post-hook / pre-, post-, post_save-, on_error-hook or set_result ending with asyncio.CancelledError "
          "(raised, or a cancelled future awaited: the callback task ends CANCELLED) or another BaseException; in ~16 % of the scenarios 2-4 "
-         "further recording middlewares whose hook invocations independently return, suspend for a virtual delay or fail, per message) followed by A+1 long probe tasks; Further family (own random stream): the REAL taskiq.api.run_receiver_task coroutine runs for the whole scenario over a scripted listen() that raises 0..3 times (ConnectionError, RuntimeError, TimeoutError, OSError, EOFError, a client's own class, a falsy exception object, an ExceptionGroup, BrokerError) as the first thing a session does / right after taking a message / while tasks are in flight / while idle, the remaining messages going to the re-started listening; N and wait_tasks_timeout set by the receiver class handed to it, stop = the finish event it gave to listen(); decided by the direct oracles only, every listen() session held to the statement by its own messages; non-trivial iff finite A, >= A messages "
+         "further recording middlewares whose hook invocations independently return, suspend for a virtual delay or fail, per message) followed by A+1 long probe tasks; Further family (own random stream): the REAL taskiq.api.run_receiver_task coroutine runs for the whole scenario over a scripted listen() that raises 0..3 times (ConnectionError, RuntimeError, TimeoutError, OSError, EOFError, a client's own class, a falsy exception object, an ExceptionGroup, BrokerError) as the first thing a session does / right after taking a message / while tasks are in flight / while idle, the remaining messages going to the re-started listening; N and wait_tasks_timeout set by the receiver class handed to it, stop = the finish event it gave to listen(); decided by the direct oracles only, every listen() session held to the statement by its own messages; Further family (recv_props.gen_relisten, own random stream): ONE Receiver object runs several listen() sessions under a supervisor - it listens again after listen() failed while every slot was busy (1-3 times, back-off, same / fresh finish event) or after listen() returned from a graceful stop whose wait_tasks_timeout had expired, callbacks of the earlier session still in flight: the Receiver object is the worker, its sessions share the limit (all of them together never exceed A; saturation probe and progress demanded unless a session ended with the runner holding an unused slot); non-trivial iff finite A, >= A messages "
          "ending abnormally and a probe present; distinct by canonical scenario",
     trusted_base=["model: coq/theories/RecvLTS.v", "logging shims + raw log -> LTS event grouping: harness/shims.py; harness/vloop.py",
                   "asyncio semantics assumed by the model: a task step is atomic; Semaphore / Queue / wait / done-callbacks as documented"],
@@ -39,12 +39,19 @@ META = dict(
                  "the broker's listen() generator takes a message only at its yield; in the proofs it raises nothing but StopAsyncIteration. "
                  "Runs under run_receiver_task with a failing listen() are oracle-checked only, with 'one worker' read as one listening "
                  "session (the reading that demands less): a callback left running by a session whose listen() failed is not counted "
-                 "against the session that replaced it"],
+                 "against the session that replaced it",
+                 "one Receiver object that listens several times is one worker over all its sessions (limit over all of them together). "
+                 "A second listen() is promised the full capacity only if no earlier session ended while its runner held a slot it had "
+                 "given to no callback (listen() returned from a stop, or failed while the runner waited for a message): runner() gives "
+                 "such a slot up by construction - then only the limit is demanded"],
 )
 PROF = dict(probe=True, stop_p=.12, n_p=.1, ends_p=.08, wtt_p=.2, slowcancel=.2, abort_p=.07, mw_p=.16)
 # run_receiver_task running for the whole scenario over a listen() that fails 0..3 times (recv_props.gen_live)
 PROF_LIVE = dict(probe=True, limited_only=True, stop_p=.1, n_p=.08, ends_p=.05, wtt_p=.15, slowcancel=.1, abort_p=.05, mw_p=.1, reg_p=.1,
                  A_choices=[1, 1, 1, 2, 2, 3, 4])
+# one Receiver object that listens again after listen() failed with every slot busy / returned from a stop whose
+# wait_tasks_timeout expired (recv_props.gen_relisten)
+PROF_RELISTEN = dict(slowcancel=.1, abort_p=.04, mw_p=.08, wire_p=.1)
 FAIL_POINTS = ("pre_fail", "post_fail", "save_fail", "psave_fail", "onerr_fail")
 DELTA = R.US            # a ready message must start within 1 s (virtual) of a slot being free
 
@@ -67,6 +74,9 @@ def oracle(sc, obs):
     #     Under run_receiver_task (sc["live"]) "one worker" is read as one listening session (the reading that demands less):
     #     a callback that a failed session left running is not counted against the session that replaced it; every session is
     #     held to the limit by its own messages.
+    #     ONE Receiver object that listens several times (recv_props.gen_relisten) is one worker over all its sessions: every
+    #     message it is processing counts, whichever session took it.
+    wkey = (lambda a: 0) if f.same_rcv else f.session_of
     procs, bodies, peak, bpeak = {}, {}, 0, 0
     cbopen, inflight = set(), {}
     orders = {}
@@ -74,7 +84,7 @@ def oracle(sc, obs):
     for e in f.raw:
         t, tag, a = e[0], e[1], e[2]
         if tag in ("cb.start", "cb.end", "ack", "hook.aw", "hook.begin", "ack.end", "hook.aw.end", "hook.end", "body.in", "body.out"):
-            proc, body = procs.setdefault(f.session_of(a), set()), bodies.setdefault(f.session_of(a), set())
+            proc, body = procs.setdefault(wkey(a), set()), bodies.setdefault(wkey(a), set())
         if tag == "cb.start":
             if proc and A == 1:
                 serial_ok = False
@@ -105,8 +115,15 @@ def oracle(sc, obs):
         peak = max([peak] + [len(x) for x in procs.values()])
         bpeak = max([bpeak] + [len(x) for x in bodies.values()])
     if A is not None and max(peak, bpeak) > A:
-        out.append(dict(what="more than max_async_tasks messages processed at one instant", observed=dict(peak=peak, bodies=bpeak),
+        out.append(dict(what="more than max_async_tasks messages processed at one instant" +
+                             (" by one Receiver object that listens again while callbacks of its earlier listen() are in flight"
+                              if f.same_rcv else ""), observed=dict(peak=peak, bodies=bpeak),
                         expected="<= %d" % A, sig=dict(kind="limit")))
+    if f.limit_only or f.slot_lost:
+        # one Receiver object, and a session of it ended while its runner held a slot it had given to no callback (listen()
+        # returned from a stop, or failed while the runner was waiting for a message): that slot is gone by construction of
+        # runner() - a second listen() on such an object is not promised the full capacity.  Only the limit is demanded.
+        return out
     # (2) limit 1: strictly one at a time, in delivery order
     if A == 1:
         for s in sorted(set(f.sess.values()) | set(orders)):
@@ -149,7 +166,8 @@ def oracle(sc, obs):
             ready = max([ready] + [f.sess_start[s + 1] for _, s, _ in f.faults[:len(before)]])
             if i in f.dropped:
                 continue
-            spans = [sp for j, sp in all_spans.items() if f.session_of(j) == f.session_of(i)]
+            if not f.same_rcv:      # (one Receiver object: its sessions share the slots)
+                spans = [sp for j, sp in all_spans.items() if f.session_of(j) == f.session_of(i)]
         # earliest instant >= ready at which fewer than A callbacks hold a slot (computed from the real log of the others)
         free = ready
         if A is not None:
@@ -227,6 +245,8 @@ def run(ctx):
     scs = [R.gen_scenario(r, PROF) for _ in range(ctx.n(400, 30000))]
     r4 = ctx.sub_rng("gen-live")             # own stream: the scenarios above are what they were
     scs += [R.gen_live(r4, PROF_LIVE) for _ in range(ctx.n(70, 4000))]
+    r6 = ctx.sub_rng("gen-relisten")         # own stream: ONE Receiver object over several listen() sessions
+    scs += [R.gen_relisten(r6, PROF_RELISTEN) for _ in range(ctx.n(60, 3000))]
     broken = explore(ctx, rep, scs, "main")
     if not ctx.quick:
         broken = explore(ctx, rep, R.grid_scenarios(), "grid") or broken
